@@ -36,6 +36,7 @@ type c10E struct {
 	I  int     `json:"i,omitempty"`
 	Z  int64   `json:"z,omitempty"`
 	Xs []int64 `json:"xs,omitempty"`
+	S  string  `json:"s,omitempty"` // stage name (lstage)
 	A  *c10E   `json:"a,omitempty"`
 	B  *c10E   `json:"b,omitempty"`
 	C  *c10E   `json:"c,omitempty"`
@@ -90,6 +91,33 @@ func (e *c10E) src() string {
 		return e.B.src() + ".accept(e->e<" + e.A.src() + ")"
 	case "lguard":
 		return e.B.src() + ".map(e->e+0%(e-" + e.A.src() + "))"
+	case "lstage":
+		a := e.A.src()
+		switch e.S {
+		case "StMerge":
+			return a + ".merge(" + e.B.src() + ",(x,y)->x<y)"
+		case "StCross":
+			return a + ".cross(" + e.B.src() + ",(x,y)->x+y)"
+		case "StCombine":
+			return a + ".combine((x,y)->x+y)"
+		case "StCombine3":
+			return a + ".combine3((x,y,z)->x+y+z)"
+		case "StCombineN":
+			return a + ".combineN(2,w->w.sum())"
+		case "StCompact":
+			return a + ".compact((x,y)->x=y)"
+		case "StNumber":
+			return a + ".number((i,e)->i+e)"
+		case "StIir":
+			return a + ".iir(e->e,(i,o)->o+i)"
+		case "StIirCombine":
+			return a + ".iirCombine(e->e,(i0,i1,o)->o+i1)"
+		}
+		panic("c10: unknown stage " + e.S)
+	case "lorder":
+		return e.A.src() + ".order(e->e)"
+	case "zcall":
+		return "(y->y*" + e.A.src() + "+" + e.B.src() + ")(" + e.C.src() + ")"
 	case "ltop":
 		return e.B.src() + ".top(" + e.A.src() + ")"
 	case "lskip":
@@ -152,6 +180,16 @@ func (e *c10E) coq() string {
 		return "(LAccept " + e.A.coq() + " " + e.B.coq() + ")"
 	case "lguard":
 		return "(LGuard " + e.A.coq() + " " + e.B.coq() + ")"
+	case "lstage":
+		b := e.A
+		if e.B != nil {
+			b = e.B
+		}
+		return "(LStage " + e.S + " " + e.A.coq() + " " + b.coq() + ")"
+	case "lorder":
+		return "(LOrder " + e.A.coq() + ")"
+	case "zcall":
+		return "(ZCall " + e.A.coq() + " " + e.B.coq() + " " + e.C.coq() + ")"
 	case "ltop":
 		return "(LTop " + e.A.coq() + " " + e.B.coq() + ")"
 	case "lskip":
@@ -295,8 +333,16 @@ func (e *c10E) alloc(next *int, consts []int) int {
 		h := *next
 		*next++
 		return h
-	case "lreverse":
+	case "lreverse", "lorder":
 		e.A.alloc(next, consts)
+		h := *next
+		*next++
+		return h
+	case "lstage":
+		e.A.alloc(next, consts)
+		if e.B != nil {
+			e.B.alloc(next, consts)
+		}
 		h := *next
 		*next++
 		return h
@@ -378,7 +424,7 @@ func c10MkProg(name string, defs []c10Def, body *c10E, listBody bool) *c10Prog {
 			ds = append(ds, "DL "+d.E.coq())
 			k := "plain-const"
 			switch d.E.Op {
-			case "lmap", "laccept", "ltop", "lskip", "lconcat", "lnumbers", "lguard":
+			case "lmap", "laccept", "ltop", "lskip", "lconcat", "lnumbers", "lguard", "lstage":
 				k = "lazy-const"
 			case "lappend":
 				k = "spare-const"
@@ -409,6 +455,22 @@ func c10MkProg(name string, defs []c10Def, body *c10E, listBody bool) *c10Prog {
 	return &c10Prog{Name: name, Src: src.String(), Args: []string{"a0", "a1"}, Coq: cq.String(), Consts: consts, NewObjs: next, Class: class, ListBody: listBody}
 }
 
+// constant-folded stateful stage values (Heap/ListHeap.v OStage), traversed - never materialised - by every
+// evaluation, completely or partially; and the same stages applied at run time to argument-dependent lists
+func c10StageModelledPool() []*c10Prog {
+	a0 := zS(sArg(0))
+	var ps []*c10Prog
+	for _, st := range []string{"StMerge", "StCross", "StCombine", "StCombine3", "StCombineN", "StCompact", "StNumber", "StIir", "StIirCombine"} {
+		defs := []c10Def{dL(lLit(1, 1, 2, 3, 3, 1)), dL(lLit(0, 2, 2, 9)), dL(lStage(st, lConst(0), lConst(1)))}
+		ps = append(ps,
+			c10MkProg("stage-modelled-list-"+st, defs, lMap(sArg(0), lConst(2)), true),
+			c10MkProg("stage-modelled-int-"+st, defs, zAdd(zTry(zFirst(lTop(sAdd(sArg(0), sLit(1)), lConst(2))), zS(sLit(-7))), zTry(zSum(lMap(sArg(1), lConst(2))), zS(sLit(-1)))), false),
+			c10MkProg("stage-modelled-runtime-"+st, defs, zTry(zSum(lStage(st, lAppend(lConst(0), a0), lConst(1))), zSize(lAppend(lConst(2), a0))), false),
+		)
+	}
+	return ps
+}
+
 func c10Opaque(name, src string) *c10Prog {
 	return &c10Prog{Name: name, Src: src, Args: []string{"a0", "a1"}, Class: "opaque:" + name}
 }
@@ -429,6 +491,14 @@ func lAppend(l, x *c10E) *c10E {
 func lMap(k, l *c10E) *c10E    { return &c10E{Op: "lmap", A: k, B: l} }
 func lAccept(k, l *c10E) *c10E { return &c10E{Op: "laccept", A: k, B: l} }
 func lGuard(v, l *c10E) *c10E  { return &c10E{Op: "lguard", A: v, B: l} }
+func lStage(st string, a, b *c10E) *c10E {
+	if st != "StMerge" && st != "StCross" {
+		b = nil
+	}
+	return &c10E{Op: "lstage", S: st, A: a, B: b}
+}
+func lOrder(l *c10E) *c10E       { return &c10E{Op: "lorder", A: l} }
+func zCall(a, b, x *c10E) *c10E  { return &c10E{Op: "zcall", A: a, B: b, C: x} }
 func lTop(n, l *c10E) *c10E    { return &c10E{Op: "ltop", A: n, B: l} }
 func lSkip(n, l *c10E) *c10E   { return &c10E{Op: "lskip", A: n, B: l} }
 func lConcat(a, b *c10E) *c10E { return &c10E{Op: "lconcat", A: a, B: b} }
@@ -491,6 +561,12 @@ func c10Pool() []*c10Prog {
 		c10MkProg("guard-at-run-time", lazy, zTry(zSize(lGuard(sArg(0), lConst(1))), zS(sLit(-1))), false),
 		c10MkProg("guard-chain", []c10Def{dL(lNumbers(sLit(6))), dL(lGuard(sLit(4), lConst(0))), dL(lMap(sLit(10), lConst(1))), dL(lConcat(lConst(2), lConst(0)))},
 			zTry(zIndex(lConst(3), a0), zSize(lTop(sArg(1), lConst(2)))), false),
+		// closures capturing ARGUMENTS: created, applied and dropped by one evaluation
+		c10MkProg("closure-captures-modelled", nil, zAdd(zCall(sArg(0), sArg(1), zS(sLit(3))), zCall(sArg(0), sArg(1), zS(sLit(4)))), false),
+		c10MkProg("closure-captures-over-list", lazy, zCall(sArg(0), sArg(1), zSize(lAppend(lConst(1), a0))), false),
+		// order: CopyToSlice (materialises the receiver) + sort
+		c10MkProg("order-const-modelled", []c10Def{dL(lLit(3, 1, 2)), dL(lMap(sLit(1), lConst(0))), dL(lOrder(lConst(1)))}, zAdd(zIndex(lConst(2), a0), zSize(lAppend(lConst(1), a1))), false),
+		c10MkProg("order-at-run-time", lazy, lOrder(lAppend(lReverse(lAppend(lConst(1), a0)), a1)), true),
 		// outside the modelled fragment
 		c10Opaque("lazy-mul-example", "let c=[1,2,3].map(e->e*2); c[a0]+c.append(a1).size()"),
 		c10Opaque("recursion", "func fib(n) if n<2 then n else fib(n-1)+fib(n-2); fib(a0+3)+a1"),
@@ -610,7 +686,7 @@ func c10ObjectPool() []*c10Prog {
 	}
 }
 
-func c10FullPool() []*c10Prog { return append(append(append(c10Pool(), c10FailingPool()...), c10StatefulPool()...), c10ObjectPool()...) }
+func c10FullPool() []*c10Prog { return append(append(append(append(c10Pool(), c10StageModelledPool()...), c10FailingPool()...), c10StatefulPool()...), c10ObjectPool()...) }
 
 
 // lazy constants whose MATERIALISATION fails at an element k > 0 (List.Eval must leave the object untouched), and
